@@ -135,9 +135,11 @@ type fileGen struct {
 	depth map[string]int      // message -> depth of its reference graph
 	flat  map[string]*nameSet // message -> names in its flattened view
 	// hasOneof / hasEmbed per message (transitively through embeds)
-	hasOneof map[string]bool
-	complex  map[string]bool // has a non-scalar field (flattened)
-	hasEmbed map[string]bool
+	hasOneof  map[string]bool
+	complex   map[string]bool // has a non-scalar field (flattened)
+	hasEmbed  map[string]bool
+	hasCustom map[string]bool
+	simple    bool // the message being generated holds only singular scalar-like fields
 }
 
 // File draws a proto file in D.
@@ -148,7 +150,7 @@ func File(t *rapid.T, o Opts) *ir.File {
 	if o.MaxFields == 0 {
 		o.MaxFields = 9
 	}
-	g := &fileGen{t: t, o: o, depth: map[string]int{}, flat: map[string]*nameSet{}, hasOneof: map[string]bool{}, complex: map[string]bool{}, hasEmbed: map[string]bool{}}
+	g := &fileGen{t: t, o: o, depth: map[string]int{}, flat: map[string]*nameSet{}, hasOneof: map[string]bool{}, complex: map[string]bool{}, hasEmbed: map[string]bool{}, hasCustom: map[string]bool{}}
 	f := &ir.File{
 		Name:        rapid.SampledFrom([]string{"x.proto", "types.proto", "api_v1.proto", "a2.proto"}).Draw(t, "file"),
 		Package:     "v0",
@@ -234,6 +236,10 @@ func (g *fileGen) message(name string, last bool) *ir.Message {
 	names := newNameSet()
 	g.flat[name] = names
 	g.depth[name] = 0
+	// A quarter of the messages hold only singular scalar-like fields: these are the
+	// ones that can be embedded as nullable messages and that make small leaf objects.
+	simple := rapid.IntRange(0, 3).Draw(t, "simple") == 0
+	g.simple = simple
 	nf := rapid.IntRange(0, o.MaxFields).Draw(t, "nfields")
 	if nf == 0 && (o.NoEmpty || last || rapid.IntRange(0, 2).Draw(t, "emptyok") != 0) {
 		// empty messages are interesting but should not dominate; the last (root candidate) is never empty
@@ -267,7 +273,7 @@ func (g *fileGen) message(name string, last bool) *ir.Message {
 		if o.OneofHeavy {
 			pOne = 3
 		}
-		if len(oneofNames) < 3 && rapid.IntRange(0, pOne).Draw(t, "oneof?") == 0 {
+		if !simple && len(oneofNames) < 3 && rapid.IntRange(0, pOne).Draw(t, "oneof?") == 0 {
 			on := names.fresh(t, "oneofname")
 			oneofNames = append(oneofNames, on)
 			nm := rapid.IntRange(1, 4).Draw(t, "nmembers")
@@ -294,7 +300,7 @@ func (g *fileGen) field(m *ir.Message, names *nameSet, embedded map[string]bool,
 	t, o := g.t, g.o
 	fl := &ir.Field{}
 	// cardinality
-	if !inOneof {
+	if !inOneof && !g.simple {
 		switch rapid.IntRange(0, 9).Draw(t, "card") {
 		case 0, 1:
 			fl.Card = ir.Repeated
@@ -309,6 +315,9 @@ func (g *fileGen) field(m *ir.Message, names *nameSet, embedded map[string]bool,
 	}
 	if o.NoTemporal && (kindSel == 16 || kindSel == 17) {
 		kindSel = 0
+	}
+	if g.simple && kindSel >= 10 && kindSel <= 15 {
+		kindSel = rapid.IntRange(0, 9).Draw(t, "kindsel3")
 	}
 	switch {
 	case kindSel <= 7:
@@ -372,7 +381,7 @@ func (g *fileGen) field(m *ir.Message, names *nameSet, embedded map[string]bool,
 		pEmb = 0
 	}
 	if target != nil && fl.Card == ir.Single && !inOneof && len(target.Fields) > 0 && !embedded[fl.Type] &&
-		rapid.IntRange(0, pEmb).Draw(t, "embed?") == 0 && g.canEmbed(m, target, names, fl) {
+		(rapid.IntRange(0, pEmb).Draw(t, "embed?") == 0 || !g.complex[fl.Type]) && g.canEmbed(m, target, names, fl) {
 		fl.Embed = true
 		embedded[fl.Type] = true
 		// The embedded Go field is named after the type; the proto field name may differ
@@ -399,6 +408,9 @@ func (g *fileGen) field(m *ir.Message, names *nameSet, embedded map[string]bool,
 			}
 			if g.complex[fl.Type] {
 				g.complex[m.Name] = true
+			}
+			if g.hasCustom[fl.Type] {
+				g.hasCustom[m.Name] = true
 			}
 		}
 	}
@@ -438,6 +450,7 @@ func (g *fileGen) field(m *ir.Message, names *nameSet, embedded map[string]bool,
 		}
 		if rapid.IntRange(0, p).Draw(t, "custom?") == 0 {
 			fl.CustomType = rapid.SampledFrom([]string{"BoolCustom", "StrCustom", "IntCustom"}).Draw(t, "customtype")
+			g.hasCustom[m.Name] = true
 			if fl.Card == ir.Single {
 				// gogo makes a singular customtype field a pointer unless nullable=false
 				if rapid.Bool().Draw(t, "customnullable") {
@@ -502,7 +515,7 @@ func (g *fileGen) canEmbed(m *ir.Message, target *ir.Message, names *nameSet, fl
 	}
 	nullable := fl.IsNullable()
 	if nullable {
-		if g.hasEmbed[target.Name] || g.hasOneof[target.Name] {
+		if g.hasEmbed[target.Name] || g.hasOneof[target.Name] || g.hasCustom[target.Name] {
 			// not in D: a nullable embedded message that itself embeds or holds a oneof
 			fl.Nullable = boolp(false)
 			return true
